@@ -100,11 +100,17 @@ def c05(payload):
                     bad.append('gain pattern does not rotate with the antenna: %.3g dB' % np.abs(ga[msk] - gd[msk]).max())
             # electromagnetic scaling
             s = 10 ** rng.uniform(-2, 2)
-            ss = copy.deepcopy(spec); ss['f'] = spec['f'] / s; ss['scales'] = [dict(factor=s, tag=None)]
+            def scale_taper(sp):
+                # the limits of a taper are lengths of the segmentation request: they scale with the antenna
+                for w in sp['wires']:
+                    if w.get('taper'):
+                        w['taper'] = [w['taper'][0]] + [None if v is None else v * s for v in w['taper'][1:]]
+            ss = copy.deepcopy(spec); ss['f'] = spec['f'] / s; ss['scales'] = [dict(factor=s, tag=None)]; scale_taper(ss)
             E = _solve(ss); cmp(E, 'all dimensions x %.4g, frequency / %.4g (option)' % (s, s))
             s2 = copy.deepcopy(spec); s2['f'] = spec['f'] / s
             for w in s2['wires']:
                 w['p1'] = [c * s for c in w['p1']]; w['p2'] = [c * s for c in w['p2']]; w['r'] = w['r'] * s
+            scale_taper(s2)
             Fm = _solve(s2); cmp(Fm, 'all dimensions x %.4g written into the coordinates' % s)
             r['bad'] = bad; r['cond'] = cond
         except Exception as e:
@@ -203,7 +209,11 @@ def c06(payload):
                     bad.append('%s: near H field changes by %.3g relative' % (what, np.abs(HB - HA).max() / np.abs(HA).max()))
             # junction pulses whose two half-segments differ in length by a factor of 9 or more
             ratio = max([max(s.seg_len for s in p.segs) / min(s.seg_len for s in p.segs) for p in A.pulses if p.geo[0] is not p.geo[1]] + [1.0])
-            r['features'] = dict(junction_length_ratio_ge_9=bool(ratio >= 9))
+            # the root cause of the recorded finding: the exact (on-axis) kernel is used for observation points on
+            # ANOTHER wire when (d0 + d3) / seg_len <= 1.1 (always for a length ratio of 9 or more; up to about
+            # 50 degrees for a ratio of 2); see tasks/ff.py:_misapplied_exact
+            from .ff import _misapplied_exact
+            r['features'] = dict(exact_kernel_applied_off_axis=bool(ratio >= 9 or _misapplied_exact(A)))
             # (a) reverse a random subset of wires
             sr = copy.deepcopy(spec)
             for w in sr['wires']:
